@@ -296,6 +296,29 @@ def run(report, p):
     if not sess_sites:
         raise AnalysisError("flatten: no commit of a session built on the collection history found")
 
+    # ------------------------------------------------------------------ R14.5
+    r5 = report.rule(
+        "R14.5",
+        "create makes an ascmhl folder only as part of writing into it: every directory creation reachable from `create` sits in a function that, on every path that does not raise, "
+        "goes on to publish a file (os.replace / os.rename) - a run that has nothing to record must not leave an empty ascmhl folder behind (the next command would refuse the tree with `no chain file`)",
+        2,
+    )
+    from sa.cfg import cfg_of as _cfg5
+    from sa.effects import site_effects as _site_effects
+
+    creach = reach_from(p, [need(cmds, "create").qual])
+    for fq in sorted(creach):
+        f = p.funcs[fq]
+        mk = [c for c, t, cls, det in _site_effects(p, fq) if cls == "MUT" and t.startswith("ext:os.") and t.split(".")[-1] in ("mkdir", "makedirs")]
+        if not mk:
+            continue
+        g5 = _cfg5(f)
+        pubs = {g5.node_for(c).id for c, t, cls, det in _site_effects(p, fq) if cls == "MUT" and t.startswith("ext:os.") and t.split(".")[-1] in ("replace", "rename")}
+        for c in mk:
+            r5.instance(f, c, f"{f.name}: {norm(c)[:60]}")
+            path = g5.find_path(g5.node_for(c), {g5.exit.id}, avoid=pubs) if True else None
+            r5.check(bool(pubs) and path is None, f, c, f"`{norm(c)[:50]}` in {f.name} creates the history folder without a file being published into it on the way out of this function: when the run records nothing (an empty folder named with -sf, everything ignored) an empty ascmhl folder stays behind, which is not a manifest or chain file and makes every later command exit 32", witness=g5.fmt_path(path) if path else None, construct=f"{f.name}: folder created without a file published into it")
+
     include_rules(report, p, 'c08', ['R8.5', 'R8.6'], 'create writes a manifest / chain only in the histories in scope: the commit loop skips every history without records or referenced children, and only looks a parent up after deciding to write')
     include_rules(report, p, 'c08', ['R8.1'], 'create writes into the ascmhl folder of the history a path is routed to: component-wise routing keeps it inside the histories in scope')
     report.not_decided += [
